@@ -566,7 +566,10 @@ def work(task):
                 for c in distinct:
                     half = len(c) // 2
                     for label, code in (("int", int(c)), ("bytes", c.encode()), ("blanks", " " + c[:half] + " " + c[half:] + "\n"),
-                                        ("dashes", c[:half] + "-" + c[half:]), ("tab_bytes", c[:2].encode() + b"\t" + c[2:].encode())):
+                                        ("dashes", c[:half] + "-" + c[half:]), ("tab_bytes", c[:2].encode() + b"\t" + c[2:].encode()),
+                                        # white space beyond ASCII (what a grouped code pasted from a phone carries)
+                                        ("nbsp", c[:half] + "\u00a0" + c[half:]), ("thin_ideographic", "\u2009" + c + "\u3000"),
+                                        ("narrow_nbsp_fs", c[:1] + "\u202f" + c[1:-1] + "\x1c" + c[-1:])):
                         do(last, t, code, label)
                 for label, code in odd_codes(digits, good):
                     do(last, t, code, label)
